@@ -45,7 +45,9 @@ func TestFarm(t *testing.T) {
 				t.Fatalf("%s: panic in %s", kind, w.R[0].PanicCall)
 			}
 			fmt.Fprintf(out, "%-36s check=%d deliver=%d  %.100s | %.100s\n", kind, ck.Code, res.Txs[0].Code, ck.Log, res.Txs[0].Log)
-			if ck.Code != 0 || res.Txs[0].Code != 0 {
+			// a user's EXPIRE_VOTES can only succeed in the block right after the voting deadline, where the
+			// mempool check (previous header) still answers "deadline not reached": deliver-only
+			if (ck.Code != 0 && kind != "EXPIRE_VOTES") || res.Txs[0].Code != 0 {
 				t.Errorf("%s not accepted: check=%d (%s) deliver=%d (%s)", kind, ck.Code, ck.Log, res.Txs[0].Code, res.Txs[0].Log)
 			}
 			// commit the (empty) block so that the mempool state is reset before the next kind
